@@ -31,16 +31,52 @@ def run(ctx):
     q3(ctx, F)
     q4(ctx, F)
     q5(ctx, F)
+    flag_identity(ctx, F)
     # "never `bestmove none` in a position that has legal moves": the root may not end up with an empty list while legal moves
     # exist - the repetition filter drops at most one move and only when another one is left (C06.P4)
     from . import p06
     before, nv = len(ctx.instances), len(ctx.violations)
     p06.p4(ctx, F)
+    # ... and what the root hands back as "the move" is a move whenever the list is not empty: the driver overwrites its fallback
+    # with it after every completed iteration (C06.P1 sources of the returned move, C06.P8 the first move searched always counts)
+    p06.p1(ctx, F)
+    p06.p8(ctx, F)
     for i in ctx.instances[before:]:
         i["rule"] = "C07.Q6(" + i["rule"] + ")"
     for v in ctx.violations[nv:]:
         v["rule"] = "C07.Q6(" + v["rule"] + ")"
         v["key"] = "C07.Q6|" + v["key"]
+
+
+def flag_identity(ctx, F, rule="C07.Q7"):
+    """the stop flag is one object all the way down: a search function that receives the flag hands exactly that flag to every
+    search function it calls (a private or substituted flag makes part of the search deaf to `stop` and to the timer)"""
+    def flag_param(fn):
+        for i, p_ in enumerate(fn["hir"].get("params") or []):
+            if ("AtomicBool" in str(p_.get("ty", "")) or "atomic::Atomic<bool>" in str(p_.get("ty", ""))) and p_["pat"].get("k") == "PBind":
+                return i, p_["pat"]["name"]
+        return None
+    takers = {p: flag_param(fn) for p, fn in F.fns.items() if fn.get("hir") and fn["kind"] in ("Fn", "AssocFn") and p.startswith("search::")
+              and flag_param(fn) is not None}
+    n = 0
+    for path, (idx, pname) in sorted(takers.items()):
+        fn = F.fn(path)
+        sym = hir.Sym(hir.Env(fn["hir"], F), F, through=True)
+        for c, _ in hir.walk(fn["hir"]["body"]):
+            if c.get("k") == "Call" and hir.callee_of(c) in takers:
+                j = takers[hir.callee_of(c)][0]
+                if j >= len(c["args"]):
+                    continue
+                n += 1
+                a = sym(c["args"][j])
+                while isinstance(a, tuple) and a[:1] in (("ref",), ("deref",), ("addr",)) and len(a) == 2:
+                    a = a[1]
+                ctx.check(rule, "flag-handed-down-unchanged:%s->%s" % (path.split("::")[-1], hir.callee_of(c).split("::")[-1]), a == ("var", pname),
+                          fn=path, file=fn["file"], line=hir.line(c),
+                          what="a search function passes something other than the stop flag it received to the search below it: that part "
+                               "of the search cannot be stopped by `stop` or by the timer",
+                          expected=pname, found=hir.fmt(a, 100))
+    ctx.floor(rule, "calls that hand the stop flag down", n, 4)
 
 
 def q5(ctx, F):
